@@ -10,7 +10,10 @@ Open Scope string_scope.
 Inductive xty :=
 | XT (t: sty)                 (* a type of the TyModel grammar *)
 | XUnion (ms: list sty)       (* Union[m1, ..., mn] built by UnionUnpackerBuilder (n >= 2, not the two-member Optional) *)
-| XLit (ls: list lit).        (* Literal[...] of int / str / bool / None values *)
+| XLit (ls: list lit)         (* Literal[...] of int / str / bool / None values *)
+| XList (x: xty)              (* List[x]: [u(value) for value in v] around a position that contains a union / Literal *)
+| XDict (kt: sty) (x: xty)    (* Dict[kt, x]: {ku(key): u(value) for key, value in v.items()} *)
+| XOpt (x: xty).              (* Optional[x]: u(value) if value is not None else None *)
 
 Record xfield := { xf_name : string; xf_ty : xty; xf_default : option pv }.
 Record xcls := { xc_name : string; xc_fields : list xfield }.
@@ -46,17 +49,47 @@ Section XRun.
     | SAny => UIdent
     | _ => UTry (fun v => ue E Q CF v (cu true t)) end.
 
-  Definition xty_nullable (t: xty) : bool := match t with XT t' => sty_nullable t' | _ => false end.
+  Definition xty_nullable (t: xty) : bool := match t with XT t' => sty_nullable t' | XOpt _ => true | _ => false end.
   Definition xfield_nullable (f: xfield) : bool :=
     xty_nullable f.(xf_ty) || match f.(xf_default) with Some VNone => true | _ => false end.
 
+  (* a position: [final v] is what a union raises when no member accepts v -- in a mixin method
+     InvalidFieldValue(field, v, class) (v = the value AT THE UNION, e.g. the list element), in a codec ValueError.
+     Containers: the comprehension raises TypeError on a non-iterable (a str iterates its characters, a dict its
+     keys), .items() raises AttributeError on a non-dict, an unhashable converted key TypeError; an element's own
+     exception propagates unchanged *)
+  Fixpoint xrun (final: pv -> exn) (x: xty) (v: pv) {struct x} : res pv :=
+    match x with
+    | XT t => ue E Q CF v (cu true t)
+    | XUnion ms => union_run (map umember_of ms) (final v) v
+    | XLit ls => lit_run ls v
+    | XOpt x' => if is_none v then Ok VNone else xrun final x' v
+    | XList x' =>
+        match v with
+        | VList l | VTuple l | VSet _ l => r <- mapM (xrun final x') l ;; Ok (VList r)
+        | VDict kvs => r <- mapM (fun p => xrun final x' (fst p)) kvs ;; Ok (VList r)
+        | VStr s => r <- mapM (fun c => xrun final x' (VStr c)) (utf8_chars s) ;; Ok (VList r)
+        | _ => Exn XTypeError end
+    | XDict kt x' =>
+        match v with
+        | VDict kvs =>
+            r <- mapM (fun p => k' <- ue E Q CF (fst p) (cu true kt) ;; y <- xrun final x' (snd p) ;;
+                                if hashable k' then Ok (k', y) else Exn XTypeError) kvs ;;
+            Ok (VDict (dict_of_pairs r))
+        | _ => Exn XAttributeError end
+    end.
+
   (* nailed = mixin method (a failed union raises InvalidFieldValue itself), else codec (ValueError) *)
+  Definition xfinal (nailed: bool) (cls fname: string) : pv -> exn :=
+    fun v => if nailed then XInvalidFieldValue fname v cls else XValueError.
+
+  (* the field's unpacker expression; at the top of a field (cu false) the Optional wrapper is handled by the
+     field block itself *)
   Definition xdec (nailed: bool) (cls: string) (f: xfield) : pv -> res pv :=
     match f.(xf_ty) with
     | XT t => fun v => ue E Q CF v (cu false t)
-    | XUnion ms => fun v => union_run (map umember_of ms)
-                              (if nailed then XInvalidFieldValue f.(xf_name) v cls else XValueError) v
-    | XLit ls => lit_run ls
+    | XOpt x' => xrun (xfinal nailed cls f.(xf_name)) x'
+    | x => xrun (xfinal nailed cls f.(xf_name)) x
     end.
 
   Definition xkey (cf: tcfg) (n: string) : string := match assoc cf.(tc_alias) n with Some a => a | None => n end.
@@ -86,8 +119,5 @@ Section XRun.
 
   (* codec roots *)
   Definition uex_root (t: xty) (d: pv) : res pv :=
-    match t with
-    | XT t' => ue E Q CF d (cu true t')
-    | XUnion ms => union_run (map umember_of ms) XValueError d
-    | XLit ls => lit_run ls d end.
+    xrun (fun _ => XValueError) t d.
 End XRun.
